@@ -102,6 +102,8 @@ xml_get_val_arr(const uint8_t *xml_data, size_t xml_data_size,
 		if (NULL == TagStart)
 			return (ESPIPE);
 		TagStart ++;
+		if (TagStart >= xml_data_end) /* '<' is the last byte. */
+			return (ESPIPE);
 		data_avail = (size_t)(xml_data_end - TagStart);
 		switch ((*TagStart)) {
 		case '?': /* <?...?> processing instructions */
@@ -546,6 +548,8 @@ xml_get_val_ns_arr(const uint8_t *xml_data, size_t xml_data_size,
 		if (NULL == TagStart)
 			return (ESPIPE);
 		TagStart ++;
+		if (TagStart >= xml_data_end) /* '<' is the last byte. */
+			return (ESPIPE);
 		data_avail = (size_t)(xml_data_end - TagStart);
 		switch ((*TagStart)) {
 		case '?': /* <?...?> processing instructions */
